@@ -99,7 +99,8 @@ def _c20(tier, seed):
     for k in (0, 1, 2):
         runs.append("H_C20_schemeless(%d,%d)" % (5 if q else 8, k))
     runs += ["H_C20_after_caller_edit(%d,%d)" % (k, 4 if q else 8) for k in range(6)]
-    return [dict(name="links", dir="/repo/telegram/deeplinks", pkg=".", harness=["harness/deeplinks/c20.go"], runs=runs, solver="z3",
+    runs += ["H_C20_unicode_lookalikes(%d,%d)" % (k, 2 if q else 3) for k in range(8)]
+    return [dict(name="links", dir="/repo/telegram/deeplinks", pkg=".", harness=["harness/deeplinks/c20.go"], runs=runs, solver="z3", walllimit=200, timeout=600,
                  validate_runs=["H_C20_paths(1,2,1,2)", "H_C20_paths(0,2,2,2)", "H_C20_joinchat(1,2)", "H_C20_hosts(0,8,2,0)", "H_C20_schemeless(5,1)"],
                  covers={"H_C20_joinchat": ["invite"]})]
 
@@ -360,7 +361,7 @@ def _c12(tier, seed):
 PROPS = {
     "C12": dict(
         jobs=_c12,
-        bounds={"quick": "codec round trip for keys/hashes of lengths {0,1,3,5}/{0,2,8,3} (every residue mod 3 of base64), every 64-bit salt, hostnames of 0..9 bytes over [A-Za-z0-9.:_[]-]; Store/Load/Store/Load on one path with every pair of modification times t1 <= t2 <= t1+255 s (equality included), same and fresh loader, second session shorter or longer than the first; missing file; relative, ./relative, sub-directory, absolute paths and the bare file name; the written file cut at every byte; resume: NewMTProto on a file written by the store (symbolic key, key id, salt, address) with no / a different / the same configured host resumes with exactly those values, dials the stored address and sends its first request encrypted under the stored salt with no key exchange; without a file it starts unkeyed on the configured host; the torn file met by a fresh loader or by one that read the intact file before (damage at least one timestamp tick later), each asked twice",
+        bounds={"quick": "codec round trip for keys/hashes of lengths {0,1,3,5}/{0,2,8,3} (every residue mod 3 of base64), every 64-bit salt, hostnames of 0..9 bytes over [A-Za-z0-9.:_[]-]; Store/Load/Store/Load on one path with every pair of modification times t1 <= t2 <= t1+255 s (equality included), same and fresh loader, second session shorter or longer than the first; missing file; relative, ./relative, sub-directory, absolute paths and the bare file name; the written file cut at every byte; resume: NewMTProto on a file written by the store (symbolic key, key id, salt, address) with no / a different / the same configured host resumes with exactly those values, dials the stored address and sends its first request encrypted under the stored salt with no key exchange; without a file it starts unkeyed on the configured host; the torn file met by a fresh loader or by one that read the intact file before (damage at least one timestamp tick later), each asked twice; two loader objects on one path used alternately (A stores or loads s1, B stores s2, A stores s1 again; writes by different loaders at least one timestamp tick apart), with and without asking the loaders in between",
                 "thorough": "keys 0..6, hashes {0,3,8}, hostnames {0,5,12}; longer sessions for the history and truncation scenarios"},
         outside="real file I/O and the OS's torn-write behaviour (symbolic one-level file system: os.Stat/ReadFile/WriteFile/Chtimes/Truncate modelled); real encoding/json (modelled for flat string structs without escapes: hostnames needing JSON escaping, non-ASCII, are outside); real sockets on resume (transport factory hooked inside the engine)",
         assumptions=["encoding/base64.StdEncoding modelled exactly by bit arithmetic (line breaks in input are not skipped)", "encoding/json modelled as a canonical writer / object parser for structs of plain strings", "os file functions modelled by an in-memory map; WriteFile stamps the stub clock"],
@@ -404,22 +405,22 @@ PROPS = {
     ),
     "C16": dict(
         jobs=_c16,
-        bounds={"quick": "one server message of each of 19 kinds (rpc_result / bad_server_salt / container truncated at every cut, pong, msgs_ack, new_session_created, bad_msg_notification, rpc_result for an unknown request, unregistered constructor, truncated body at every cut, empty and nested containers, unexpected objects, empty body, bare Bool/vector) with symbolic fields and odd/even seq_no, delivered to the library's own receive loop (startReadingResponses over a fake transport) with a consumer on the Warnings channel; a repeated rpc_result; after one answered and acknowledged request, a message of each of 8 kinds (bad_server_salt, rpc_result, rpc_result/rpc_error, bad_msg_notification, msgs_ack, pong, msg_detailed_info, msgs_state_info) naming the msg_id of the answered request or of the client's own acknowledgement (symbolic choice); orderly close (io.EOF) followed by reconnection through a hooked transport factory; each followed by a probe request that must complete; one reader at a time per connection (asserted inside the fake transport)",
+        bounds={"quick": "one server message of each of 19 kinds (rpc_result / bad_server_salt / container truncated at every cut, pong, msgs_ack, new_session_created, bad_msg_notification, rpc_result for an unknown request, unregistered constructor, truncated body at every cut, empty and nested containers, unexpected objects, empty body, bare Bool/vector) with symbolic fields and odd/even seq_no, delivered to the library's own receive loop (startReadingResponses over a fake transport) with a consumer on the Warnings channel; a repeated rpc_result; after one answered and acknowledged request, a message of each of 8 kinds (bad_server_salt, rpc_result, rpc_result/rpc_error, bad_msg_notification, msgs_ack, pong, msg_detailed_info, msgs_state_info) naming the msg_id of the answered request or of the client's own acknowledgement (symbolic choice); orderly close (io.EOF) followed by reconnection through a hooked transport factory; each followed by a probe request that must complete; one reader at a time per connection (asserted inside the fake transport); two server messages in a row (every kind twice except the truncated ones, the stateful kinds crossed); the state after a key exchange in the same process (exchange request sent through the client's own service-mode path) with the server naming that request's msg_id in bad_server_salt / rpc_result / rpc_error / bad_msg_notification, twice; a request outstanding at a server close followed by a second close and / or the late answer on the newest connection",
                 "thorough": "also without a Warnings consumer"},
-        outside="longer sequences of such messages (each run is one step from the idle state or from the state after one answered request); real sockets and process exit codes; gzip-packed traffic (C15 decodes it)",
+        outside="sequences of more than two such messages; real sockets and process exit codes; gzip-packed traffic (C15 decodes it)",
         assumptions=["a panic escaping any goroutine is process death", "transport.NewTransport hooked inside the engine for the reconnect scenario (not replayable natively)"],
     ),
     "C10": dict(
         jobs=_c10,
-        bounds={"quick": "msg_id arithmetic for every pair of non-decreasing clock readings below 2^31 s (symbolic); one send step from every even seq_no; 2 and 3 concurrent senders with clocks that advance 0 or 1000 ns per reading, every interleaving of clock readings and locked transport writes (yield points: time.Now, transport write); acknowledgement of 2 server messages with every odd/even seq_no combination, alone and in a container; the written stream across a server-side close and the client's own reconnect (symbolic starting seq_no)",
+        bounds={"quick": "msg_id arithmetic for every pair of non-decreasing clock readings below 2^31 s (symbolic); one send step from every even seq_no; 2 and 3 concurrent senders with clocks that advance 0 or 1000 ns per reading, every interleaving of clock readings and locked transport writes (yield points: time.Now, transport write); acknowledgement of 2 server messages with every odd/even seq_no combination, alone and in a container; the written stream across a server-side close and the client's own reconnect (symbolic starting seq_no); 3 senders under a clock set back by 1 ms per reading",
                 "thorough": "4 concurrent senders; 4 ns clock step"},
         outside="more senders; years >= 2038 (seconds<<32 overflows int64); schedules that differ only between yield points; real sockets",
         assumptions=["time.Now stubbed: (seconds, nanoseconds) pair, non-decreasing (symbolic) or concrete with a fixed step", "cooperative scheduling model with yields at clock readings and transport writes", "division by 10^9 of sec*10^9+ns simplified after the solver confirmed 0 <= ns < 10^9 and the absence of wrap-around"],
     ),
     "C09": dict(
         jobs=_c09,
-        bounds={"quick": "2 concurrent callers (3 for object results) x every answer order x {plain messages, one container} x result kinds {object, Bool, bare Vector<long> with hint}; every subset of the results gzip-packed inside rpc_result (identity-coded gzip stub) for object/vector results as plain messages and Bool results in a container; result payloads symbolic; schedules: symbolic choice of the next goroutine before and after each transport write, at most 2 pre-emptions per path (context-switch bound), deterministic lowest-id-first elsewhere; concrete clock (1 us per reading); a vector-result (hinted) request rejected once by a salt rotation and then answered",
-                "thorough": "3 callers for every kind/packaging"},
+        bounds={"quick": "2 concurrent callers (3 for object results) x every answer order x {plain messages, one container} x result kinds {object, Bool, bare Vector<long> with hint}; every subset of the results gzip-packed inside rpc_result (identity-coded gzip stub) for object/vector results as plain messages and Bool results in a container; result payloads symbolic; schedules: symbolic choice of the next goroutine before and after each transport write, at most 2 pre-emptions per path (context-switch bound), deterministic lowest-id-first elsewhere; concrete clock (1 us per reading); a vector-result (hinted) request rejected once by a salt rotation and then answered; the same scenarios under a clock that stands still or is set back by 1 ms per reading; an rpc_error (plain, first in a container, gzip-packed) answering a call that declared a vector result next to an object result for another caller",
+                "thorough": "3 callers for every kind/packaging; more stalled / backward clock combinations"},
         outside="more goroutines; real sockets and crypto (fake transport at the messages.Common level); real gzip streams (the stub codes gzip(x) = marker+x; native replays use real gzip); vector-of-object results; schedules that differ only between yield points",
         assumptions=["cooperative scheduling model: a goroutine runs until it blocks, finishes or reaches a transport write", "time.Now stubbed by a concrete advancing clock"],
     ),
@@ -432,42 +433,42 @@ PROPS = {
     ),
     "C02": dict(
         jobs=_c02,
-        bounds={"quick": "as C01 quick, oracle = reference encoder driven by the schema text (regenerated from schemes/*.tl on every run): shared-bit constructors x 12 patterns, service objects, 120 seed-chosen constructors x 4 patterns; string headers for lengths 0..9, 250..258, 65534..65537, 2^24, 2^24+1; pairwise presence patterns as in C01; a refused value serialised immediately before the value under test",
+        bounds={"quick": "as C01 quick, oracle = reference encoder driven by the schema text (regenerated from schemes/*.tl on every run): shared-bit constructors x 12 patterns, service objects, 120 seed-chosen constructors x 4 patterns; string headers for lengths 0..9, 250..258, 65534..65537, 2^24, 2^24+1; pairwise presence patterns as in C01; a refused value serialised immediately before the value under test; vectors of 0..3 elements, conditional slices present and empty, several byte strings through one encoder (as C01)",
                 "thorough": "all registered constructors x {none, all, only-first, only-second}; the shared-bit, service-object and feature-cover classes x every single-member, all-but-one and pairwise pattern (<= 20 conditional fields) and at depth 2 with 2 implementer variants; strings 0..279, 2^24-4..2^24+5"},
-        outside="as C01; gzip_packed (hand-written codec, see the known finding); vectors longer than 2",
+        outside="as C01; gzip_packed (hand-written codec, see the known finding); vectors longer than 3",
         assumptions=["genschema.py (independent TL reader) and the reference encoder in harness/telegram/c02.go are the oracle", "pairing Go type <-> schema line is by constructor id (ids pinned by C13's ground obligations)"],
     ),
     "C13": dict(
         jobs=_c13,
-        bounds={"quick": "all 1236 schema definitions (ground obligations: registered, CRC() = schema id = crc32(canonical line), field order/kind/flag bit/flags position); registry subset of schema; the 3 hand-written wrappers; byte-level agreement (C02 harness) for 80 seed-chosen constructors; all exported *Client methods: the 343 generated ones called with symbolic distinguishable arguments (request constructor = schema function id, argument i in parameter position i, decoder hint iff vector result, answer handed back unchanged); for every API constructor the set of generated marker methods equals the union named by its schema line (case-insensitive), at most one",
+        bounds={"quick": "all 1236 schema definitions (ground obligations: registered, CRC() = schema id = crc32(canonical line), field order/kind/flag bit/flags position); registry subset of schema; the 3 hand-written wrappers; byte-level agreement (C02 harness) for 80 seed-chosen constructors; all exported *Client methods: the 343 generated ones called with symbolic distinguishable arguments (request constructor = schema function id, argument i in parameter position i, decoder hint iff vector result, answer handed back unchanged - the answer being any constructor of the declared result union, one path each); for every API constructor the set of generated marker methods equals the union named by its schema line (case-insensitive), at most one",
                 "thorough": "byte-level agreement for all constructors"},
         outside="a live server (client methods are driven with the transport entry points hooked inside the engine; such counterexamples are not replayable natively)",
         assumptions=["canonical-line rule as used by Telegram's own tooling (drop #id, flags.N?true parameters, bytes->string, <> and {} removed)", "msg_container's id is assigned rather than derived (documented exception)"],
     ),
     "C01": dict(
         jobs=_c01,
-        bounds={"quick": "all enum members; every constructor with a shared flag bit x presence patterns {none, all, only-j, all-but-j}; all MTProto service objects; msg_container with 0..2 messages (symbolic ids, seq_nos, bodies of 1..3 words); a greedy cover of the distinct field shapes (two constructors per combination of kind/element/conditional/bit-stored/shared) x 4 patterns; 100 seed-chosen constructors x patterns {none, all, only first, only second}; leaves symbolic (int/long/double bits, bool, strings and byte strings of length 0..4, vectors of 0..2, int128/int256 with 0..2 leading zero bytes), nested objects depth 1 with the smallest implementer; strings: every length 0..9, 250..258, 65534..65537 (PutMessage/PopMessage kernels), 2^24 and 2^24+1; pairwise presence patterns (every pair of conditional fields in all four combinations, m <= 16) for the shared-bit and feature-cover classes; other codec traffic (a refused value, a different valid value) between encode and decode",
+        bounds={"quick": "all enum members; every constructor with a shared flag bit x presence patterns {none, all, only-j, all-but-j}; all MTProto service objects; msg_container with 0..2 messages (symbolic ids, seq_nos, bodies of 1..3 words); a greedy cover of the distinct field shapes (two constructors per combination of kind/element/conditional/bit-stored/shared) x 4 patterns; 100 seed-chosen constructors x patterns {none, all, only first, only second}; leaves symbolic (int/long/double bits, bool, strings and byte strings of length 0..4, vectors of 0..2, int128/int256 with 0..2 leading zero bytes), nested objects depth 1 with the smallest implementer; strings: every length 0..9, 250..258, 65534..65537 (PutMessage/PopMessage kernels), 2^24 and 2^24+1; pairwise presence patterns (every pair of conditional fields in all four combinations, m <= 16) for the shared-bit and feature-cover classes; other codec traffic (a refused value, a different valid value) between encode and decode; vectors of 0..3 elements; doubles of every bit pattern (NaN payloads, infinities); conditional byte strings / vectors present and empty; 2-3 byte strings of lengths 0..4, 254..257, 250..259 through one encoder and one decoder; string contents are arbitrary bytes (ill-formed UTF-8 included)",
                 "thorough": "all registered constructors x {none, all, only-first, only-second}; the shared-bit, service-object and feature-cover classes x every single-member, all-but-one and pairwise pattern and at depth 2 with 2 implementer variants; every string length 0..279, 2^24-4..2^24+5"},
-        outside="strings longer than 4 inside a full constructor (covered through the string kernels), nesting deeper than 2, vectors longer than 2, presence patterns that differ from none/all in more than one field, gzip_packed (its encoder is not implemented: known finding), exact-consumption of trailing bytes",
+        outside="strings longer than 4 inside a full constructor (covered through the string kernels), nesting deeper than 2, vectors longer than 3, presence patterns that differ from none/all in more than one field, gzip_packed (its encoder is not implemented: known finding), exact-consumption of trailing bytes",
         assumptions=["reflect is modelled by the engine (validated against native reflect on the differential vectors)", "math/big.Int modelled as bit-vectors; Bytes() explored for 0..2 leading zero bytes"],
     ),
     "C20": dict(
         jobs=_c20,
-        bounds={"quick": "schemes {none, http, https}; the 5 reserved hosts and every host text of length 0..8 over [A-Za-z0-9.-] (look-alikes), ports {none, ':', ':443', ':8080'}; paths of 0..3 segments, each 0..2 bytes over [A-Za-z0-9._~-]; /joinchat/<token> with token 0..2 and arbitrary 8-byte first segments; scheme-less texts incl. the bare host; every reserved host after a caller replaced that entry of the slice ReservedHosts() returned by an arbitrary host of 4 bytes",
+        bounds={"quick": "schemes {none, http, https}; the 5 reserved hosts and every host text of length 0..8 over [A-Za-z0-9.-] (look-alikes), ports {none, ':', ':443', ':8080'}; paths of 0..3 segments, each 0..2 bytes over [A-Za-z0-9._~-]; /joinchat/<token> with token 0..2 and arbitrary 8-byte first segments; scheme-less texts incl. the bare host; every reserved host after a caller replaced that entry of the slice ReservedHosts() returned by an arbitrary host of 4 bytes; 8 hosts that differ from a reserved host in one non-ASCII look-alike character (long s, Kelvin sign, Cyrillic e, full-width t, dotless i, ...) with any scheme / port and a symbolic username or invite; a reserved host spelled in another ASCII case is neither required to resolve nor to be refused (if it resolves, the answer must be right)",
                 "thorough": "host texts 0..12, segments 0..3, scheme-less hosts 0..8"},
         outside="url.Parse itself (the engine runs resolveHttpLink on the URL value Parse yields; counterexamples are re-validated natively through the public Resolve on the text); other schemes (tg://, ftp://: the scheme switch sits behind url.Parse); percent-escapes, query/fragment, non-ASCII",
         assumptions=["for the stated alphabets url.Parse passes host and path through unchanged (checked natively on every replayed counterexample and on the differential validation vectors)"],
     ),
     "C17": dict(
         jobs=_c17,
-        bounds={"quick": "each of the 15 table rows with every parameter string of length 0..4 (all bytes symbolic: digits, signs, non-digits, '%'); every error text of length 0..24 with every 32-bit code; all catalogue entries (ground); each table row also through RpcErrorToNative; delivery: two callers in flight over the library's own receive loop, rpc_error (every code; arbitrary text of 0..6 bytes or rows FILE_PART/FLOOD_WAIT/INTERDC with a 1..2 digit parameter) addressed to either of them, answered in either order; PHONE_MIGRATE_d for every digit d against a list configuring data centres 2 and 4 (transport factory hooked), alone and with a second call in flight; PHONE_MIGRATE_2 / _7 on a client while another client of the process configured data centres 2 and 7 through SetDCList",
+        bounds={"quick": "each of the 15 table rows with every parameter string of length 0..4 (all bytes symbolic: digits, signs, non-digits, '%'); every error text of length 0..24 with every 32-bit code; all catalogue entries (ground); each table row also through RpcErrorToNative; delivery: two callers in flight over the library's own receive loop, rpc_error (every code; arbitrary text of 0..6 bytes or rows FILE_PART/FLOOD_WAIT/INTERDC with a 1..2 digit parameter) addressed to either of them, answered in either order; PHONE_MIGRATE_d for every digit d against a list configuring data centres 2 and 4 (transport factory hooked), alone and with a second call in flight; PHONE_MIGRATE_2 / _7 on a client while another client of the process configured data centres 2 and 7 through SetDCList; PHONE_MIGRATE on a call that declared a vector result (the repeated request is answered with a bare vector)",
                 "thorough": "parameter strings 0..7; texts 0..28; delivery for all 14 non-migration rows"},
         outside="longer texts / parameters (incl. integers overflowing int); formatting of descriptions that take a parameter (fmt is stubbed); real reconnection (sockets, a new key exchange on the new data centre); what happens to other calls in flight during a migration beyond 'the client survives'; more than two callers",
         assumptions=["fmt.Sprintf/Errorf and pkg/errors are opaque total functions", "cooperative scheduling model, fake transport at the messages.Common level, transport.NewTransport hooked inside the engine for the migration scenario (not replayable natively)"],
     ),
     "C08": dict(
         jobs=_c08,
-        bounds={"quick": "abridged/intermediate frames for every word count 0..8 and 120..132 (both sides of the 127-word switch), all payload bits symbolic; unaligned lengths 0..17; sequences of 2 messages; arbitrary headers for <= 6 words; Detect on every 0..5 byte prefix; transport.ReadMsg: every 32-bit error word, frames of 0..28 bytes; segmentation: 2 messages of 1..2 words and a four-byte error frame through the real tcpConn wrapper + go-dry CancelableReader (goroutines executed) + real mode, socket reads unsplit / one byte at a time / split at every pair of cut points, and a 127-word first message with cuts inside its long header; one writer and one reader object over big-small-big-small frame sequences around 127, 256 and 65536 words",
+        bounds={"quick": "abridged/intermediate frames for every word count 0..8 and 120..132 (both sides of the 127-word switch), all payload bits symbolic; unaligned lengths 0..17; sequences of 2 messages; arbitrary headers for <= 6 words; Detect on every 0..5 byte prefix; transport.ReadMsg: every 32-bit error word, frames of 0..28 bytes; segmentation: 2 messages of 0..2 words (the empty message included) and a four-byte error frame through the connection object built by the library's own NewTCP (resolve/dial hooked) + go-dry CancelableReader (goroutines executed) + real mode, socket reads unsplit / one byte at a time / split at every pair of cut points, and a 127-word first message with cuts inside its long header; one writer and one reader object over big-small-big-small frame sequences around 127, 256 and 65536 words",
                 "thorough": "word counts 0..40, 100..140, 250..260, 16383..16384; sequences of 3; headers <= 12 words; frames 0..44"},
         outside="the kernel's TCP stack itself ((*net.conn).Read/Write are replaced inside the engine by a source that hands out arbitrary segments; more than two cut points except the one-byte-per-read case); read deadlines / timeouts; abridged lengths >= 2^24 words; frames longer than the bounds",
         assumptions=["mode-level harnesses use a connection with the exact-count read contract; the segmentation harness checks that tcpConn provides it over a socket that returns short reads"],
